@@ -286,7 +286,7 @@ def _wire(prop, tier, seed, core, targets, rule):
             n += 1
             out = os.path.join(work, "shard-%02d.json" % n)
             jobs.append(("%s#%d" % (target, k), [core.binpath("wire"), "--target", target, "--seed", str(_seed(seed, n)), "--batches", str(batches * mult),
-                         "--time-limit", str(secs * (1 if tier == "quick" else 8)), "--out", out], out))
+                         "--time-limit", str(secs * (1 if tier == "quick" else 8)), "--huge", "1" if k == 0 else "0", "--out", out], out))
     res = core.run_shards(prop, jobs, 20 * 8 * 3 + 120)
     m = core.merge(prop, tier, seed, res, core.known_for(prop), engine="wire")
     m["rule"] = rule
@@ -296,7 +296,7 @@ def _wire(prop, tier, seed, core, targets, rule):
 def c19(prop, tier, seed, core):
     return _wire(prop, tier, seed, core, [("jaeger", 3, 80, 16), ("datadog", 3, 60, 16), ("otel", 2, 150, 10)],
                  "seeded random SpanRecord batches (0-2000 records; ids 0 / 1 / MAX / top bit / random; empty, long, multi-byte, NUL strings; duplicate "
-                 "keys; 0-20 events, and now and then one record with 129-1500 events and/or 129-600 properties, beyond the default span limits of the OpenTelemetry SDK) are given to the real reporters. Jaeger: datagrams received on a loopback UDP socket are decoded by an independent "
+                 "keys; 0-20 events; batch sizes 14..17, 31..33, 127..129, 255..257 and, in one shard per target, 65535..65537 first; now and then one record with 129-1500 events and/or 129-600 properties, beyond the default span limits of the OpenTelemetry SDK) are given to the real reporters. Jaeger: datagrams received on a loopback UDP socket are decoded by an independent "
                  "Thrift compact decoder (message header, Batch, Process, Span, Tag, Log) and compared field by field, no trailing bytes; an "
                  "independent encoder is cross-checked against the real bytes. Datadog: a loopback HTTP/1.1 listener captures request line, headers "
                  "and body, an independent msgpack decoder checks the [[span..]] shape and every field (meta as a map, last duplicate wins). "
